@@ -10,17 +10,24 @@
                data_tmp = self.smoothers[i](data_tmp, axis=i)          # specification proper
            return data_tmp
 
-   Wrong variants (sensitivity): "selfdata"   - the loop body applies the smoother to self.data instead of data_tmp
-                                 "stalecache" - add() leaves the cached dataSmooth in place *)
+       def set_smoother(self, smoothers):
+           ...
+           self.smoothers = [...]
+           self.__dict__.pop("dataSmooth", None)                       # specification proper
+
+   Wrong variants (sensitivity): "selfdata"    - the loop body applies the smoother to self.data instead of data_tmp
+                                 "stalecache"  - add() leaves the cached dataSmooth in place
+                                 "stalesmoother" - set_smoother() leaves the cached dataSmooth in place *)
 EXTENDS ResultAlg
 
 CONSTANTS Shapes,        \* set of energy shapes
           Ranks,         \* tensor ranks
           Kernels,       \* set of smoother kernels (<<>> = VoidSmoother)
-          MaxAdds        \* number of add() calls in a behaviour
+          MaxAdds,       \* number of add() calls in a behaviour
+          MaxSets        \* number of set_smoother() calls in a behaviour
 
-VARIABLES shape, rank, smo, data, b, pc, ax, tmp, cache, obs, log
-svars == <<shape, rank, smo, data, b, pc, ax, tmp, cache, obs, log>>
+VARIABLES shape, rank, smo, smo0, data, b, pc, ax, tmp, cache, obs, log
+svars == <<shape, rank, smo, smo0, data, b, pc, ax, tmp, cache, obs, log>>      \* smo0: the smoothers the result was built with
 Unused == start = 0 /\ store = <<>> /\ files = <<>> /\ hist = <<>>       \* the C16 machine is not used here
 
 ShapesA == {<<2>>, <<3>>, <<2, 2>>, <<2, 3>>, <<1, 3>>}
@@ -43,34 +50,44 @@ SmoAssignments(sh) == {s \in [1..Len(sh) -> Kernels] : \A a \in 1..Len(sh) : Smo
 
 SInit == /\ Unused
         /\ shape \in Shapes /\ rank \in Ranks
-        /\ smo \in SmoAssignments(shape)
+        /\ smo \in SmoAssignments(shape) /\ smo0 = smo
         /\ data \in DataSet(ProdSeq(shape) * Pow3(rank), rank)
         /\ b = Dense(3, ProdSeq(shape) * Pow3(rank))
         /\ pc = "idle" /\ ax = 0 /\ tmp = <<>> /\ cache = <<>> /\ obs = <<>> /\ log = <<>>
 
 Reads == Cardinality({k \in 1..Len(log) : log[k] = "read"})
 Adds == Cardinality({k \in 1..Len(log) : log[k] = "add"})
+Sets == Cardinality({k \in 1..Len(log) : log[k] = "set"})
+(* the smoothers handed to set_smoother: every axis gets another kernel than it was built with *)
+AltKernel(k, ne) == IF ne < 2 THEN <<>> ELSE IF k = <<1, 2, 1>> THEN <<1, 2, 4, 2, 1>> ELSE <<1, 2, 1>>
+AltSmo == [a \in 1..NAx |-> AltKernel(smo0[a], shape[a])]
 (* r.dataSmooth *)
-ReadCached == /\ pc = "idle" /\ cache # <<>> /\ Reads < 2 + Adds
+ReadCached == /\ pc = "idle" /\ cache # <<>> /\ Reads < 2 + Adds + Sets
               /\ obs' = cache /\ log' = Append(log, "read")
-              /\ UNCHANGED <<shape, rank, smo, data, b, pc, ax, tmp, cache>> /\ UNCHANGED vars
+              /\ UNCHANGED <<shape, rank, smo, smo0, data, b, pc, ax, tmp, cache>> /\ UNCHANGED vars
 ReadStart == /\ pc = "idle" /\ cache = <<>>
              /\ pc' = "loop" /\ ax' = NAx /\ tmp' = RatData(data) /\ obs' = <<>>
-             /\ UNCHANGED <<shape, rank, smo, data, b, cache, log>> /\ UNCHANGED vars
+             /\ UNCHANGED <<shape, rank, smo, smo0, data, b, cache, log>> /\ UNCHANGED vars
 LoopStep == /\ pc = "loop" /\ ax >= 1
             /\ tmp' = SmoothAxis(smo[ax], FS, IF "selfdata" \in Wrong THEN RatData(data) ELSE tmp, ax)
             /\ ax' = ax - 1
-            /\ UNCHANGED <<shape, rank, smo, data, b, pc, cache, obs, log>> /\ UNCHANGED vars
+            /\ UNCHANGED <<shape, rank, smo, smo0, data, b, pc, cache, obs, log>> /\ UNCHANGED vars
 LoopEnd == /\ pc = "loop" /\ ax = 0
            /\ cache' = <<tmp>> /\ obs' = <<tmp>> /\ pc' = "idle" /\ tmp' = <<>> /\ log' = Append(log, "read")
-           /\ UNCHANGED <<shape, rank, smo, data, b, ax>> /\ UNCHANGED vars
+           /\ UNCHANGED <<shape, rank, smo, smo0, data, b, ax>> /\ UNCHANGED vars
 (* r.add(other) : self.data += other.data *)
 AddInPlaceData == /\ pc = "idle" /\ Adds < MaxAdds
                   /\ data' = [p \in 1..Len(data) |-> data[p] + b[p]]
                   /\ cache' = IF "stalecache" \in Wrong THEN cache ELSE <<>>
                   /\ obs' = <<>> /\ log' = Append(log, "add")
-                  /\ UNCHANGED <<shape, rank, smo, b, pc, ax, tmp>> /\ UNCHANGED vars
-SNext == ReadCached \/ ReadStart \/ LoopStep \/ LoopEnd \/ AddInPlaceData
+                  /\ UNCHANGED <<shape, rank, smo, smo0, b, pc, ax, tmp>> /\ UNCHANGED vars
+(* r.set_smoother(AltSmo) *)
+SetSmoother == /\ pc = "idle" /\ Sets < MaxSets
+               /\ smo' = AltSmo
+               /\ cache' = IF "stalesmoother" \in Wrong THEN cache ELSE <<>>
+               /\ obs' = <<>> /\ log' = Append(log, "set")
+               /\ UNCHANGED <<shape, rank, smo0, data, b, pc, ax, tmp>> /\ UNCHANGED vars
+SNext == ReadCached \/ ReadStart \/ LoopStep \/ LoopEnd \/ AddInPlaceData \/ SetSmoother
 Spec17 == SInit /\ [][SNext]_<<svars, vars>>
 
 (* ---- C17 *)
